@@ -373,6 +373,10 @@ def gen_terms(mode, depth, K):
             nxt.append(['not', a])
             if can_op(a):
                 nxt.append(['not', a, 'op'])
+                # double negation yields the TARGET (not the child's result) and turns every rejection into a MatchError
+                nxt.append(['not', ['not', a, 'op'], 'op'])
+                nxt.append(['not', ['not', a], 'op'])
+            nxt.append(['not', ['not', a]])
             for b in kids[:width]:
                 for ctor in ('and', 'or'):
                     for dflt in DEFAULTS:
